@@ -180,15 +180,18 @@ class AstAnalyzer:
                 curr = live_out
                 while curr != prev:
                     prev = curr
-                    curr = visit_block(stmt.body, prev).difference({p_loop_var})
-                return curr
+                    # The loop may execute zero times: everything live after it is live before it.
+                    curr = visit_block(stmt.body, prev).difference({p_loop_var}) | live_out
+                # The loop bound is read before the first iteration.
+                return curr | _used_vars(stmt.iter)
             if isinstance(stmt, ast.While):
                 cond_vars = _used_vars(stmt.test)
                 prev = None
                 curr = live_out | cond_vars
                 while curr != prev:
                     prev = curr
-                    curr = visit_block(stmt.body, prev) | cond_vars
+                    # The loop may execute zero times: everything live after it is live before it.
+                    curr = visit_block(stmt.body, prev) | cond_vars | live_out
                 return curr
             if isinstance(stmt, ast.Break):
                 # The following is sufficient for the current restricted usage, where
